@@ -3,7 +3,9 @@
 
    Reading guide.  `tr` ranges over ALL label sequences accepted by the transition system MT/WorkMT.v from its
    initial state with owner thread `o` (`run (init o) tr = Some s`, `accepts o tr = true`): any submission program
-   (bursts, submissions from completions and timers, continuations from work functions, NULL-pool items, put),
+   (bursts, submissions from completions and timers, continuations from work functions, continuations from FOREIGN
+   submitters = running helper threads, neither the owner nor threads of the pool: what a worker of another pool of the
+   same owner is for this pool, NULL-pool items, put),
    any schedule of the owner, the pool threads and helper threads at every lock / post / kick / wait, any
    max_threads >= 1, the idle timer firing at any moment.  Accepted sequences are prefix-closed, so a statement
    about counts in `tr` holds at every moment of a run.  The implementation side (the logs of the real iv_work.c
@@ -52,7 +54,12 @@ Print Assumptions C12_bounded_parallelism.
 
 (* W4 / W5 of Appendix A.7 hold in every reachable state: queued work always has a thread being created for it, or
    a pool thread that is starting / in got_event / running work, or one in its loop whose kick event is posted (or
-   owed by the holder of the pool lock) and that is off the idle list or marked `kicked`; finished work always
+   owed by the holder of the pool lock) and that is off the idle list or marked `kicked`, or (after a submission by a
+   foreign thread that found no thread to kick) the owner's thread_needed event posted / popped / owed while nobody is
+   idle, started_threads < max_threads and the pool has not been put, so that its handler starts a thread (needed_wit of
+   MT/WorkMTSpec.v; API contract, guard of the put critical section in MT/WorkMT.v: iv_work_pool_put is not called in
+   that state with started_threads = 0 -- iv_work_pool_put / iv_work_event would free the pool with the item queued);
+   finished work always
    has the owner's event posted, popped, or owed; a shut-down pool without threads is about to be freed. *)
 Theorem C12_work_wakeup_invariant :
   forall o tr s, run (init o) tr = Some s -> W4 s /\ W5 s.
@@ -143,4 +150,16 @@ Example C12_nonvacuous :
     LBlock 0; LWake 2; LEvW 2 2; LLock 2; LEvW 2 2; LHookStop 2; LEvO 2; LKickO 2; LUnlock 2; LEvO 2; LTFin 2;
     LWake 0; LEvO 0; LLock 0; LUnlock 0; LLock 0; LUnlock 0; LEvO 0; LEvO 0; LEvO 0; LTJoin 0 2; LEvO 0; LMainEnd 0;
     LDone] = true.
+Proof. vm_compute. reflexivity. Qed.
+
+(* Non-vacuity, foreign submitter: the label sequence of a real log (max_threads = 1; helper thread 1, made by the owner,
+   submits item 3 by iv_work_pool_submit_continuation while the pool has no thread: the thread_needed event is posted to
+   the owner from inside the pool lock and the owner is kicked; the helper exits; the owner's thread_needed handler starts
+   pool thread 2, which runs the item; completion in the owner; the thread exits on its idle timeout; QUIESCENT). *)
+Example C12_nonvacuous_foreign :
+  accepts 0 [LCreate 0 1; LTCreate 0 1; LSubmit 1 3; LMain 0; LBlock 0; LLock 1; LEvO 1; LKickO 1; LUnlock 1; LEnd 1; LEvO 1;
+    LTFin 1; LWake 0; LEvO 0; LLock 0; LTCreate 0 2; LUnlock 0; LEvO 0; LTJoin 0 1; LEvO 0; LBlock 0; LHookStart 2; LEvW 2 2;
+    LEvW 2 2; LLock 2; LUnlock 2; LWork 2 3; LRet 2 3; LLock 2; LEvO 2; LKickO 2; LUnlock 2; LBlock 2; LWake 0; LEvO 0; LLock 0;
+    LUnlock 0; LCompl 0 3; LBlock 0; LWake 2; LLock 2; LEvW 2 2; LHookStop 2; LUnlock 2; LEvO 2; LKickO 2; LTFin 2; LWake 0;
+    LEvO 0; LTJoin 0 2; LEvO 0; LBlock 0; LQuiescent] = true.
 Proof. vm_compute. reflexivity. Qed.
